@@ -474,3 +474,30 @@ async fn send_connection_reply(
 
     Ok(())
 }
+
+/// Verification hooks (compiled only with `--cfg anytls_rs_verif`).
+#[cfg(anytls_rs_verif)]
+pub mod socks5_verif_hooks {
+    pub async fn authenticate(conn: &mut tokio::net::TcpStream) -> Result<(), String> {
+        super::authenticate(conn).await.map_err(|e| e.to_string())
+    }
+
+    /// ((address, port), command byte)
+    pub async fn read_connection_request(
+        conn: &mut tokio::net::TcpStream,
+    ) -> Result<((String, u16), u8), String> {
+        super::read_connection_request(conn)
+            .await
+            .map(|(a, c)| ((a.addr, a.port), c))
+            .map_err(|e| e.to_string())
+    }
+
+    pub async fn handle_socks5_connection(
+        conn: tokio::net::TcpStream,
+        client: std::sync::Arc<crate::client::Client>,
+    ) -> Result<(), String> {
+        super::handle_socks5_connection(conn, client)
+            .await
+            .map_err(|e| e.to_string())
+    }
+}
